@@ -1,6 +1,7 @@
 import CollectionsC.Proofs.HashTableNamed
 import CollectionsC.Proofs.HashSetLedger
 import CollectionsC.Properties.C02
+import CollectionsC.Proofs.HashTableHistory
 /-! # C16 (hash part) — rejected operations are inert
 
 An absent key (the NULL key included) is reported with `CC_ERR_KEY_NOT_FOUND` and the *whole
@@ -128,11 +129,37 @@ theorem iter_remove_twice (c : HCfg) (t : HashTable) (it : HIter) (m : Mem) (k :
   refine ⟨?_, h2, HashTable.iterRemove_no_prev c _ _ _ h2⟩
   unfold HashTable.iterInit; simp only; split <;> rfl
 
-/-- every status any iterator call of any program reports other than OK leaves everything unchanged -/
+/-- every status any iterator call of any program reports other than OK leaves everything unchanged
+(table, cursor, ledger) — no assumption on the ledger -/
 theorem iter_error_is_inert (c : HCfg) (t : HashTable) (it : HIter) (op : HashTable.IterOp) (m : Mem)
-    (cur : HashTable.Cursor) (h : t.Inv c) (hr : HashTable.CurRel t it cur) (hl : t.size + 2 ≤ liveOf m t.triple)
-    (hne : (HashTable.iterStep c t it op m).1.1 ≠ .ok) : (HashTable.iterStep c t it op m).2 = (t, it, m) :=
-  (HashTable.iterStep_refines c t it op m cur h hr hl).2.2.2.2.2.2.2 hne
+    (cur : HashTable.Cursor) (h : t.Inv c) (hr : HashTable.CurRel t it cur)
+    (hne : (HashTable.iterStep c t it op m).1.1 ≠ .ok) : (HashTable.iterStep c t it op m).2 = (t, it, m) := by
+  obtain ⟨r1, r2, r3, r4⟩ := hr
+  cases op with
+  | next =>
+    cases hto : cur.todo with
+    | nil =>
+      rw [hto] at r1
+      simp only [HashTable.iterStep, (HashTable.iterNext_spec c t it m [] h r1).1 rfl]
+    | cons e rest =>
+      rw [hto] at r1
+      have := ((HashTable.iterNext_spec c t it m (e :: rest) h r1).2 e rest rfl).1
+      simp only [HashTable.iterStep] at hne
+      exact absurd this hne
+  | remove =>
+    cases hla : cur.last with
+    | none =>
+      have hp : it.prev = none := by rw [r2, hla]; rfl
+      simp only [HashTable.iterStep, HashTable.iterRemove_no_prev c t it m hp]
+    | some e =>
+      exfalso
+      have hp : it.prev = some e.key := by rw [r2, hla]; rfl
+      have hlk := HashTable.lookup_of_mem c t h e (r4 e hla).1
+      have hst := (HashTable.remove_status c t e.key m h).1
+      rw [hlk] at hst
+      apply hne
+      simp only [HashTable.iterStep, HashTable.iterRemove, hp]
+      exact hst
 
 /-- set API: an error other than the allocation-related ones leaves the set physically unchanged -/
 theorem set_error_is_inert (c : HCfg) (s : HashSet) (op : Set.Op) (m : Mem) (h : s.Inv c)
